@@ -32,6 +32,14 @@ MUTANTS = [
     {"name": "c05_contexts_not_reversed", "property": "C05", "file": "tree.py",
      "old": "                for sub_edit in reversed(list(edit.edits())):\n",
      "new": "                for sub_edit in list(edit.edits()):\n"},
+    {"name": "c05_xml_complete_ignores_children", "property": "C05", "file": "xml.py",
+     "old": "            and self.attrib_edit.is_complete() and self.child_edit.is_complete()\n",
+     "new": "            and self.attrib_edit.is_complete()\n",
+     "expect": "any"},   # benign: every edits() listing completes its own structure, cost and script are unchanged
+    {"name": "c05_multiset_complete_too_early", "property": "C05", "file": "multiset.py",
+     "old": "    def is_complete(self) -> bool:\n        return self._matcher.is_complete()\n",
+     "new": "    def is_complete(self) -> bool:\n        return self._matcher.is_complete() or self._matcher._edges_are_distinct\n",
+     "expect": "any"},   # benign for the same reason: .matching is computed from the same (distinct) edge state
     {"name": "c05_quiet_skips_cell_cost", "property": "C05", "file": "levenshtein.py",
      "old": "                        _, _, _ = self._best_match(row, col)\n",
      "new": "                        if not DEFAULT_PRINTER.quiet or row == 0 or col == 0 or (row + col) % 5:\n"
